@@ -86,6 +86,7 @@ class Observer:
         self.state: Dict[str, Any] = {}
         self.insert_step: Dict[Tuple[int, int], int] = {}
         self.ran_step: Dict[Tuple[int, int], int] = {}
+        self.left_pending: Dict[Tuple[int, int], Tuple[str, bool]] = {}
 
     def snapshot(self) -> View:
         T = self.w.db.tables
@@ -104,6 +105,13 @@ class Observer:
         for k, j in self.cur.jobs.items():
             if k not in self.insert_step:
                 self.insert_step[k] = self.step
+            o = self.prev.jobs.get(k) if self.prev is not None else None
+            if k not in self.left_pending and j['state'] != 'Pending' and (o is None or o['state'] == 'Pending'):
+                # (op kind, did one of its parents complete in this very op) when the job was inserted non-Pending / left Pending
+                par_done = any((pk := (k[0], x)) in self.cur.jobs and self.cur.jobs[pk]['state'] in TERMINAL and
+                               (self.prev is None or pk not in self.prev.jobs or self.prev.jobs[pk]['state'] not in TERMINAL)
+                               for x in self.cur.parents.get(k, []))
+                self.left_pending[k] = (op.split()[0], par_done)
             if k not in self.ran_step and j['state'] in ('Creating', 'Running') + TERMINAL:
                 self.ran_step[k] = self.step          # first time the job is seen started or finished
         ws = op.split()
@@ -131,6 +139,13 @@ class Observer:
                 return True
             g = v.groups.get((job['batch_id'], job['job_group_id']))
             return bool(g and g['state'] == 'running')
+        if ws[0] == 'insertJobs':
+            # the handlers run validate_and_clean_jobs first: the job ids of one bunch are contiguous (the model does not know that check)
+            # (bunches that _create_jobs refuses anyway — an id outside the reserved range — stay in: both sides answer err)
+            ids = [int(t.split(';')[0]) for t in ws[4:]]
+            u = v.updates.get((int(ws[1]), int(ws[2])))
+            contiguous = all(y == x + 1 for x, y in zip(ids, ids[1:]) if x)
+            return contiguous or u is None or not all(1 <= x <= u['n_jobs'] for x in ids)
         if ws[0] == 'unschedule':
             # both callers (canceller.py) take (attempt, instance) from a row of `attempts`
             a = v.attempts.get((int(ws[1]), int(ws[2]), f'att{ws[3]}'))
@@ -339,6 +354,16 @@ def stored_cancellable(v: View):
 
 def c01(obs: Observer):
     v = obs.cur
+    if len(v.batches) >= 2:
+        obs.tag('two-batches')
+        ws = obs.op.split()
+        if ws[0] == 'cancel' and obs.ans.startswith('ok'):
+            obs.state.setdefault('cancelled_batches', set()).add(int(ws[1]))
+            if obs.state.get('cleanup_after_cancel_of') and obs.state['cleanup_after_cancel_of'] - {int(ws[1])}:
+                obs.tag('cancel-of-a-batch-after-cleanup-following-cancel-of-another-batch')
+        if ws[0] == 'cleanupCancellable' and obs.state.get('cancelled_batches'):
+            obs.state['cleanup_after_cancel_of'] = set(obs.state['cancelled_batches'])
+            obs.tag('cleanupCancellable-after-cancel-with-another-live-batch')
     want = recount_user(v)
     have = stored_user(v)
     if want != have:
@@ -571,6 +596,16 @@ def c04(obs: Observer):
     for k in p.jobs:
         if k not in v.jobs:
             return ('job-row-disappeared', f'job {k} disappeared')
+    for k, j in v.jobs.items():
+        o = p.jobs.get(k)
+        if o is not None and j['state'] in ('Running', 'Creating') and (o['state'], o['attempt_id']) != (j['state'], j['attempt_id']):
+            a = v.attempts.get((k[0], k[1], j['attempt_id']))
+            inst = v.instances.get(a['instance_name']) if a and a['instance_name'] else None
+            ok = inst is not None and (inst['state'] == 'active' or (j['state'] == 'Creating' and inst['state'] == 'pending'))
+            if not ok:
+                return ('job-started-on-dead-instance', f'job {k} became {j["state"]} with attempt {j["attempt_id"]} on instance '
+                                                        f'{a["instance_name"] if a else None} which is {inst["state"] if inst else "unknown"}: nothing will '
+                                                        f'ever report or reset it')
     ab = abandoned_attempt(p, v)
     if ab is not None:
         # (commit_batch_update of a non-first update rewrites the state of every job of the update, also of one that already runs)
@@ -614,7 +649,7 @@ def c05(obs: Observer):
         u = v.updates.get((int(ws[1]), int(ws[2])))
         for t in ws[4:]:
             f = t.split(';')
-            absp = [int(x) for x in f[1].split(',') if x]
+            absp = [int(x) for x in f[1].lstrip('L').split(',') if x]
             if u and any(x >= u['start_job_id'] for x in absp):
                 # an earlier job of the SAME update named by absolute id (the legacy `parent_ids` form; in update 1 every absolute parent is one)
                 obs.tag('absolute-parent-inside-own-update' + (':update-1' if u['update_id'] == 1 else ''))
@@ -665,8 +700,45 @@ def c05(obs: Observer):
 # ---------------------------------------------------------------------------------------------------------------
 # C06  completion of batches and job groups
 
+def group_ancestors_as_declared(obs: 'Observer') -> Optional[Tuple[str, str]]:
+    """after an accepted insertGroups: every new group's rows in job_group_self_and_ancestors (ordered by level) are the group itself
+    followed by the ancestor chain of the parent its spec named — absolute id, or in-update id counted from the UPDATE's first group id
+    (hailtop.batch_client: in_update_parent_id is relative to the update, whatever bunch the group travels in)"""
+    p, v = obs.prev, obs.cur
+    ws = obs.op.split()
+    if ws[0] != 'insertGroups' or not obs.ans.startswith('ok') or p is None:
+        return None
+    b, upd = int(ws[1]), int(ws[2])
+    u = v.updates.get((b, upd))
+    if u is None:
+        return None
+    chain: Dict[int, List[int]] = {}
+    for r in sorted((r for r in v.T['job_group_self_and_ancestors'] if r['batch_id'] == b), key=lambda r: r['level']):
+        chain.setdefault(r['job_group_id'], []).append(r['ancestor_id'])
+    first = None
+    for t in ws[4:]:
+        rel, absp, relp = t.split(';')
+        g = u['start_job_group_id'] + int(rel) - 1
+        first = g if first is None else first
+        if (b, g) in p.groups or (b, g) not in v.groups:
+            continue
+        parent = int(absp) if absp != 'N' else u['start_job_group_id'] + int(relp) - 1
+        if absp == 'N' and parent < first:
+            obs.tag('group-with-in-update-parent-from-earlier-bunch')
+        if absp == 'N':
+            obs.tag('group-with-in-update-parent')
+        want = [g] + chain.get(parent, [])
+        if chain.get(g) != want:
+            return ('group-ancestors-differ-from-declared-parent',
+                    f'group {(b, g)} was declared with parent {parent}; its ancestor rows are {chain.get(g)}, expected {want}')
+    return None
+
+
 def c06(obs: Observer):
     v = obs.cur
+    bad = group_ancestors_as_declared(obs)
+    if bad is not None:
+        return bad
     rec = tallies_recount(v, committed_only=True)
     njobs: Dict[Tuple[int, int], int] = {k: 0 for k in v.groups}
     live: Dict[Tuple[int, int], int] = {k: 0 for k in v.groups}
@@ -830,6 +902,14 @@ def c08(obs: Observer):
         new = [j for k, j in v.jobs.items() if k not in p.jobs]
         if obs.case.get('adv') and obs.op not in [h[0] for h in obs.history[:-1]]:
             obs.tag('adv:' + obs.case['adv'])
+        for t in ws[4:]:
+            f = t.split(';')
+            if f[1].startswith('L'):
+                obs.tag('parents-spelled-parent_ids' + (':hostile' if obs.case.get('adv') else ''))
+            elif f[1]:
+                obs.tag('parents-spelled-absolute_parent_ids' + (':hostile' if obs.case.get('adv') else ''))
+            if f[2]:
+                obs.tag('parents-spelled-in_update_parent_ids' + (':hostile' if obs.case.get('adv') else ''))
         if obs.ans == 'err':
             t = obs.unchanged()
             if t is not None:
@@ -1028,6 +1108,12 @@ def scheduler_visible(w) -> List[Tuple[int, int]]:
 
 def c41(obs: Observer):
     v = obs.cur
+    ws0 = obs.op.split()
+    if ws0[0] == 'commit' and obs.ans == 'ok 0' and int(ws0[2]) >= 2:
+        nxt = v.updates.get((int(ws0[1]), int(ws0[2]) + 1))
+        if nxt is not None and not nxt['committed'] and (int(ws0[1]), nxt['start_job_id']) in v.jobs:
+            # two non-initial updates open at once, adjacent id ranges, the earlier one is committed while the first job of the next is there
+            obs.tag('commit-of-update-N>=2-while-first-job-of-open-update-N+1-is-inserted')
     obs.state.setdefault('views', []).append(v)
     vis = scheduler_visible(obs.w)
     if vis:
@@ -1037,9 +1123,15 @@ def c41(obs: Observer):
         if not v.committed(b, job['update_id']):
             # the two known mechanisms: a child activated by its parent's completion; a parentless job of update 1 (inserted Ready by
             # _create_jobs) when a later update was committed first.  Anything else is a different defect and keeps its own name.
-            cls = 'complete-parent-while-child-update-uncommitted' if v.parents.get((b, j)) else \
-                'ready-job-of-uncommitted-update-in-running-group' if job['update_id'] == 1 else \
-                'parentless-job-of-later-uncommitted-update-visible'
+            how = obs.left_pending.get((b, j), ('?', False))
+            if v.parents.get((b, j)):
+                # known: mark_job_complete of a parent moved the child of an uncommitted update out of Pending — only if that is what happened
+                cls = 'complete-parent-while-child-update-uncommitted' if how == ('complete', True) else \
+                    f'job-of-uncommitted-update-made-ready-by-{how[0]}'
+            elif job['update_id'] == 1 and how[0] == 'insertJobs':
+                cls = 'ready-job-of-uncommitted-update-in-running-group'      # known: parentless jobs of update 1 are inserted Ready
+            else:
+                cls = f'parentless-job-of-uncommitted-update-made-ready-by-{how[0]}'
             return (cls, f'the scheduler\'s SELECT returns job {(b, j)} of update {job["update_id"]}, which is not committed')
     if any(not u['committed'] for u in v.updates.values()) and v.jobs:
         obs.tag('uncommitted-update-present')
@@ -1085,7 +1177,7 @@ def _referenced(history, b: int, u: int, jr: range, gr: range) -> bool:
         if ws[0] == 'insertJobs' and int(ws[1]) == b and int(ws[2]) != u:
             for t in ws[4:]:
                 f = t.split(';')
-                if any(int(x) in jr for x in f[1].split(',') if x):
+                if any(int(x) in jr for x in f[1].lstrip('L').split(',') if x):
                     return True
     return False
 
